@@ -116,9 +116,65 @@ def run_property(pid, prog, config, tier):
     mod = importlib.import_module('props.' + PROPS[pid])
     rep = Report(pid)
     mod.run(prog, rep, tier=tier, config=config)
+    if any(o.status == VIOLATION for o in rep.obs) and os.environ.get('VERIF_NO_INLINED_VIEW') != '1':
+        rep = second_opinion(pid, mod, prog, rep, tier, config)
     for o in rep.obs:
         o.config = config
     return rep, mod
+
+
+def second_opinion(pid, mod, prog, rep, tier, config):
+    """A rule is violated only if it is violated on the program as written AND on the same program with helper functions
+    spliced into their callers (mir.Program.inlined). Both are the same program; the second view lets intra-procedural rules
+    keep seeing one body after a block has been extracted into a helper (or an anchor function has been split).  Per rule:
+    violations of the plain view stand unless the inlined view ran that rule without any violation; rules that did not run
+    on the plain view (an anchor was lost first) take their verdict from the inlined view; a lost anchor is forgiven when the
+    inlined view does not lose the same anchor."""
+    try:
+        progb = prog.inlined()
+        repb = Report(pid)
+        mod.run(progb, repb, tier=tier, config=config)
+    except Exception:
+        traceback.print_exc()
+        return rep
+    ran_a = {}
+    for o in rep.obs:
+        ran_a.setdefault(o.rule, []).append(o)
+    ran_b = {}
+    for o in repb.obs:
+        ran_b.setdefault(o.rule, []).append(o)
+    keys_b_viol = {o.key for o in repb.obs if o.status == VIOLATION}
+    out = []
+    resolved = []
+    for o in rep.obs:
+        if o.status != VIOLATION:
+            out.append(o)
+            continue
+        if o.rule == 'anchor' or 'anchor-lost' in o.key:
+            if o.key in keys_b_viol:
+                out.append(o)
+            else:
+                resolved.append(o)
+            continue
+        b = ran_b.get(o.rule)
+        if b and not any(x.status == VIOLATION for x in b):
+            resolved.append(o)
+        else:
+            out.append(o)
+    for o in resolved:
+        out.append(Ob(o.rule, o.key, OK, where=o.where, fn=o.fn, trivial=True,
+                      detail='reported on the function as written, discharged on the view with helper functions inlined: ' + (o.detail or '')[:160]))
+    # rules that could not run on the plain view
+    for rule, obs_b in ran_b.items():
+        if rule in ran_a or rule == 'anchor':
+            continue
+        for x in obs_b:
+            x.detail = '[on the view with helper functions inlined] ' + (x.detail or '')
+            out.append(x)
+    rep.obs = out
+    rep.extra['second_opinion'] = {'inlined_functions': len([1 for f in progb.fns.values() if getattr(f, 'inlined', None)]),
+                                   'violations_resolved_by_inlined_view': [o.key for o in resolved]}
+    return rep
 
 
 def main(argv=None):
